@@ -19,6 +19,8 @@ CFG = {
                  "re-run under a debug-profile build and compared). Model side: outcome class and value; quick = stratified sample "
                  "(first cell of every (built-in, receiver kind, outcome) and (built-in, kwarg kinds, outcome) stratum, filled uniformly to 4000), "
                  "thorough = every modelled cell. distinct = distinct Gallina case terms; non-trivial = not (no kwargs and receiver rejected as the wrong kind). "
+                 "Implementation-side law oracles on every cell: range = exactly the progression or a justified failure (known class "
+                 "range:span-overflow-refused), round never turns a finite number into NaN/inf (known class round:non-finite-result). "
                  "Cells of sort/unique/group_by (laws owned by C16) and cells whose value needs a std oracle the model does not carry "
                  "(float printing/parsing, Debug string escaping, from_utf8_lossy, Value/Key equality of C15) are oracle-only and counted as such.",
     "trusted_base": TB_COMMON + [
